@@ -66,7 +66,17 @@ pub fn tokenize(src: Vec<char>, src_file_path: String) -> Result<Vec<Token>, Pak
     while current_i < src.len() {
         // c represents total chars consumed by token t
         // l represents total line consumed by token t
-        let (t, c, l) = consume(&src, current_i, line, src_file_path.clone())?;
+        // '-' directly after a token that ends an operand is the binary operator,
+        // even when a digit follows it without blank (৫-১, ক[০]-১, (ক)-১)
+        let after_operand = match tokens.last() {
+            Some(last) => match last.kind {
+                TokenKind::Num(_) | TokenKind::String(_) | TokenKind::Identifier | TokenKind::Bool(_)
+                | TokenKind::ParenEnd | TokenKind::SquareBraceEnd => true,
+                _ => false,
+            },
+            None => false,
+        };
+        let (t, c, l) = consume(&src, current_i, line, src_file_path.clone(), after_operand)?;
         if let Some(token) = t {
             tokens.push(token);
         }
@@ -83,14 +93,14 @@ pub fn tokenize(src: Vec<char>, src_file_path: String) -> Result<Vec<Token>, Pak
     Ok(tokens)
 }
 
-fn consume(src: &Vec<char>, start: usize, line: u32, src_file_path: String) -> Result<(Option<Token>, usize, u32), PakhiErr> {
+fn consume(src: &Vec<char>, start: usize, line: u32, src_file_path: String, after_operand: bool) -> Result<(Option<Token>, usize, u32), PakhiErr> {
     let consumed_char: usize;
     let consumed_line: u32;
     let token: Token;
 
     match src[start] {
         '-'|'০'|'১'|'২'|'৩'|'৪'|'৫'|'৬'|'৭'|'৮'|'৯' => {
-            if src[start].is_numeric() || (start + 1 < src.len() && src[start+1].is_numeric()) {
+            if src[start].is_numeric() || (!after_operand && start + 1 < src.len() && src[start+1].is_numeric()) {
                 // negative number, unary '-' operator
                 let (val, consumed) = consume_num(src, start, line, &src_file_path)?;
 
